@@ -33,6 +33,9 @@ func (c *core) Write(p []byte) (int, error) {
 		c.park("write", len(p))
 	}
 	c.calls++
+	if len(c.got) > 48<<20 {
+		panic("sim: runaway output (more than 48 MB written by one render)")
+	}
 	off := len(c.got)
 	c.starts = append(c.starts, off)
 	if c.fired && c.sticky && c.fault.Kind != "shortnil" {
